@@ -63,6 +63,9 @@ class BBUnitaryChecker(ast.NodeVisitor):
         self.flags = unitary_flags
         for stmt in bb.statements:
             self.visit(stmt)
+        # Calls can also occur in the condition the BB branches on
+        if bb.branch_pred is not None:
+            self.visit(bb.branch_pred)
 
     def _check_classical_args(self, args: list[ast.expr]) -> bool:
         for arg in args:
